@@ -415,6 +415,10 @@ def main(prop, argv):
         'violations': len(violations),
     }
     for k, v in extra.get('coverage', {}).items(): ev['coverage'][k] = v
+    if st.get('rs2v', {}).get('tied_by'):
+        # the behaviour table could not be translated from its source text this time: it is tied by running both sides instead
+        ev['coverage']['table_tie'] = dict(st.get('table_tie', {}), note='ascii_map.rs is written outside the translator\'s subset (%s); Gen/AsciiMap.v is the last translation, compared with the implementation\'s table on %d neighbourhoods' % (st['rs2v'].get('log', '').strip()[-200:], st.get('table_tie', {}).get('cases', 0)))
+        out_lines.append('NOTE: table tied by behaviour (%d neighbourhoods): the translator cannot read the current ascii_map.rs' % st.get('table_tie', {}).get('cases', 0))
     json.dump(ev, open(ev_path, 'w'), indent=1, ensure_ascii=False)
     for l in out_lines: print(l)
     print('%s %s: %d items, %d diverging, %d oracle failures, proofs %s, %d/%d obligations, %.1fs' % (
@@ -424,7 +428,7 @@ def main(prop, argv):
 TRUSTED_BASE = [
     'Coq 8.16.1 kernel (coqc full .vo builds; vm_compute used for finite sweeps; no native_compute)',
     'axioms: none (Print Assumptions under every property theorem must print "Closed under the global context")',
-    'translator /verif/translator/rs2v.py (ascii_map.rs -> Gen/AsciiMap.v) and the harness table dumps behind Gen/{UnicodeMap,CircleTables,Width,White,Style,Defaults}.v, regenerated on every run',
+    'translator /verif/translator/rs2v.py (ascii_map.rs -> Gen/AsciiMap.v) and the harness table dumps behind Gen/{UnicodeMap,CircleTables,Width,White,Style,Defaults}.v, regenerated on every run; when the table source is rewritten outside the translator\'s subset, the last translation is compared with the implementation\'s table on some 37,000 neighbourhoods instead (coverage.table_tie)',
     'source anchors /verif/translator/anchors.py',
     'extraction to OCaml with ExtrOcamlBasic only (Extract Inductive bool, option, unit, list, prod, sumbool, sumor; Extract Inlined Constant andb, orb); Z/N/positive/nat stay inductive',
     'OCaml driver /verif/driver/driver.ml (UTF-8, case framing, dump parsing) and Rust harness /verif/harness (dumps, catch_unwind)',
